@@ -95,12 +95,33 @@ type family struct {
 	lists [][]pv // ordered lists of distinct (verb, path)
 	names []int  // name schemes applied to every list
 	opts  []Opts
+	// update: every list is generated twice in one project directory - first its first before routes (every
+	// 1 <= before < len), then all of them - and the directory is validated after the second run
+	update bool
 }
 
-func (f *family) size() int { return len(f.lists) * len(f.names) * len(f.opts) }
+func (f *family) size() int {
+	n := len(f.lists) * len(f.names) * len(f.opts)
+	if f.update {
+		n *= len(f.lists[0]) - 1
+	}
+	return n
+}
 
 // at returns the i-th case: lists vary slowest, options fastest.
 func (f *family) at(i int) Case {
+	before := 0
+	if f.update {
+		k := len(f.lists[0]) - 1
+		before = 1 + i%k
+		i /= k
+	}
+	cs := f.at0(i)
+	cs.Before = before
+	return cs
+}
+
+func (f *family) at0(i int) Case {
 	o := f.opts[i%len(f.opts)]
 	i /= len(f.opts)
 	sch := f.names[i%len(f.names)]
@@ -176,6 +197,16 @@ func families(thorough bool) []*family {
 	// the empty service (no HTTP-annotated method) and handler names that turn into special file names
 	fs = append(fs, &family{name: "the empty route set x 8 option sets", lists: [][]pv{{}}, names: []int{nDistinct}, opts: all8})
 	add("pairs, handler names with go-tool file suffixes / coinciding file names, structure alphabet, depth<=2, root", small, 2, []int{nFile, nSameFile}, all8)
+	upd := func(what string, items []pv, k int, schemes []int, opts []Opts) {
+		fs = append(fs, &family{name: "UPDATE (hz new with a prefix of the list, then hz update with the whole list, one process each): " + describe(what, items, k, schemes, opts), lists: sequences(items, k), names: schemes, opts: opts, update: true})
+	}
+	updItems := cross(get, []string{"/", "/a", "/a/b", "/b", "/a-b", "/a_b/c", "/v1/item", "/order-item"})
+	if !thorough {
+		upd("pairs", updItems, 2, []int{nDistinct, nSegment}, all8[:4])
+	} else {
+		upd("pairs", cross(getPost, []string{"/", "/a", "/a/b", "/b", "/a-b", "/a_b/c", "/v1/item", "/order-item", "/a/:id"}), 2, []int{nDistinct, nSegment, nSame}, all8)
+		upd("triples", updItems, 3, []int{nDistinct, nSegment}, all8)
+	}
 	if !thorough {
 		add("singles, collision alphabet, depth<=2, trailing-slash variants, root", cross([]string{"GET", "ANY"}, pathsOver(alphaCollision, 2, true, true)), 1, []int{nSegment}, all8)
 		add("pairs, structure alphabet, depth<=2, trailing-slash variants, root", cross(allVerbs, pathsOver(alphaStruct, 2, true, true)), 2, []int{nDistinct}, all8)
